@@ -103,6 +103,12 @@ TrapModeOK ==
           ELSE /\ a.out \in {"AccessViolation", "PrivilegeViolation", "IllegalOpcode", "InvalidInstrFormat"}
                /\ Halted(b)
                /\ b.st.disp = a.st.disp \o Msg(a.out)
+\* every program of the family, for the harness to replay on the real simulator (`lc3v replay trapmode`):
+\* R0 followed by the words loaded at x3000
+\* (the constants of the start state are shared with the harness through the OPS file and must agree)
+Ops == ndJsonDeserialize(IOEnv.OPS)[1]
+OpsAgree == Ops.data = DataWords /\ Ops.dataaddr = DATA /\ Ops.kbd = <<66, 10>> /\ Ops.r6 = 64768 /\ Ops.psr = 32770
+Emit == phase = "chk" => (OpsAgree /\ PrintT(<<"HIST", <<r0>> \o Words(prog, ending)>>))
 \* which ending leads where (non-vacuity of the two branches)
 EndingsAsMeant ==
   phase = "chk" =>
